@@ -141,6 +141,21 @@ fn hetero_case(timeouts: &[u32], secs: i64, stream: u64) -> Value {
     json!({"op":"hetero","timeouts":timeouts,"secs":secs,"res":"ok","removals":removals,"first":first,"panics":panics,"mesh":mesh0 && sim.full_mesh()})
 }
 
+/// two nodes; the second advertises a short timeout but announces only every `ka` seconds: the first one must keep it
+/// (it applies its own timeout), and the second one is refreshed often enough by the first
+fn hetero_ka_case(timeouts: &[u32], ka: u32, secs: i64, stream: u64) -> Value {
+    let mut sim: Sim<Packet> = Sim::new(stream);
+    sim.add_node(false, &cfg_with(timeouts[0], None));
+    sim.add_node(false, &cfg_with(timeouts[1], Some(ka)));
+    let a0 = sim.nodes[0].addr;
+    sim.connect(1, a0);
+    sim.deliver_due();
+    sim.run_for(3);
+    let mesh0 = sim.full_mesh();
+    let (removals, first, panics) = count_removals(&mut sim, secs);
+    json!({"op":"hetero","timeouts":timeouts,"ka":ka,"secs":secs,"res":"ok","removals":removals,"first":first,"panics":panics,"mesh":mesh0 && sim.full_mesh()})
+}
+
 /// a node whose current announcement interval is long gets a new peer that advertises a small timeout
 fn latejoin_case(own_to: u32, late_to: u32, secs: i64, stream: u64) -> Value {
     let mut sim: Sim<Packet> = Sim::new(stream);
@@ -164,31 +179,49 @@ fn latejoin_case(own_to: u32, late_to: u32, secs: i64, stream: u64) -> Value {
 }
 
 /// everything node x (index 1) sends is dropped from second ts on; when does node 0 remove it?
-fn silence_case(timeout: u32, ts: i64, stream: u64) -> Value {
+/// The two nodes have different timeouts and x may announce rarely (explicit keepalive): node 0 must apply its OWN
+/// timeout, counted from the last time an announcement of x actually refreshed the entry (observed as a change of the
+/// entry's expiry, not computed from its value).
+fn silence_case(timeout: u32, peer_timeout: u32, peer_ka: Option<u32>, ts: i64, stream: u64) -> Value {
     let mut sim: Sim<Packet> = Sim::new(stream);
     let mut c0 = cfg_with(timeout, None);
     c0.claims = vec!["10.1.0.0/16".into()];
-    let mut c1 = cfg_with(timeout, None);
+    let mut c1 = cfg_with(peer_timeout, peer_ka);
     c1.claims = vec!["10.2.0.0/16".into()];
     sim.add_node(false, &c0);
     sim.add_node(false, &c1);
     let a0 = sim.nodes[0].addr;
+    let a1 = sim.nodes[1].addr;
     sim.connect(1, a0);
     sim.deliver_due();
+    let exp_of = |sim: &Sim<Packet>| sim.nodes[0].node.verif_peers().iter().find(|p| p.addr == a1).map(|p| p.timeout);
+    let mut last_exp = exp_of(&sim);
+    let mut last_refresh = 0i64;
     for _ in 0..ts {
         sim.tick();
+        let e = exp_of(&sim);
+        if e != last_exp {
+            last_exp = e;
+            last_refresh = sim.now - T0;
+        }
+    }
+    let base = json!({"op":"silence","T":timeout,"peer_T":peer_timeout,"peer_ka":peer_ka.map(|k| k as i64).unwrap_or(-1),"ts":ts});
+    let fin = |mut v: Value, res: &str, lr: i64, ra: i64, rg: bool, rd: bool| {
+        v["res"] = json!(res);
+        v["last_refresh"] = json!(lr);
+        v["removed_at"] = json!(ra);
+        v["routes_gone"] = json!(rg);
+        v["redialled"] = json!(rd);
+        v
+    };
+    if last_exp.is_none() {
+        return fin(base, "not-connected", 0, 0, false, false);
     }
     sim.faults.silent.insert(2);
-    // last refresh as the node accounts it: expiry - own timeout
-    let exp0 = sim.nodes[0].node.verif_peers().iter().find(|p| p.addr == sim.nodes[1].addr).map(|p| p.timeout);
-    let last_refresh = match exp0 {
-        Some(e) => e - timeout as i64 - T0,
-        None => return json!({"op":"silence","T":timeout,"ts":ts,"res":"not-connected","last_refresh":0,"removed_at":0,"routes_gone":false,"redialled":false}),
-    };
     let mut removed_at = -1i64;
     let mut routes_gone = false;
     let mut redialled = false;
-    for _ in 0..(timeout as i64 + 10) {
+    for _ in 0..(timeout.max(peer_timeout) as i64 + 10) {
         sim.tick();
         let (peers, pending) = sim.shape(0);
         if !peers.contains(&2) {
@@ -199,7 +232,7 @@ fn silence_case(timeout: u32, ts: i64, stream: u64) -> Value {
             break;
         }
     }
-    json!({"op":"silence","T":timeout,"ts":ts,"res":"ok","last_refresh":last_refresh,"removed_at":removed_at,"routes_gone":routes_gone,"redialled":redialled})
+    fin(base, "ok", last_refresh, removed_at, routes_gone, redialled)
 }
 
 /// a configured peer that never answers: times of fresh dial attempts (a retransmission repeats the same bytes)
@@ -233,8 +266,9 @@ enum Job {
     Interval(u32, Option<u32>, Vec<u32>),
     Hetero(Vec<u32>, i64),
     LateJoin(u32, u32, i64),
-    Silence(u32, i64),
+    Silence(u32, u32, Option<u32>, i64),
     Backoff(i64),
+    HeteroKa(Vec<u32>, u32, i64),
 }
 
 pub fn run(tier: &str, out_path: &str) -> Value {
@@ -282,11 +316,15 @@ pub fn run(tier: &str, out_path: &str) -> Value {
         jobs.push(Job::LateJoin(own, late, if quick { 800 } else { 6000 }));
     }
     // (c) silence injection at every second of a window
-    for t in [121u32, 300] {
-        let win = if quick { 40 } else { 2 * t as i64 };
+    for (t, pt, pka) in [(121u32, 121u32, None), (300, 300, None), (150, 400, None), (400, 130, None), (200, 20, Some(50u32)), (60, 600, Some(30))] {
+        let win = if quick { 25 } else { 2 * t as i64 };
         for ts in 5..(5 + win) {
-            jobs.push(Job::Silence(t, ts));
+            jobs.push(Job::Silence(t, pt, pka, ts));
         }
+    }
+    // healthy peers that advertise a short timeout but announce rarely (explicit keepalive): never timed out by others
+    for (a, b, ka) in [(600u32, 20u32, 100u32), (300, 30, 200), (1000, 5, 60)] {
+        jobs.push(Job::HeteroKa(vec![a, b], ka, if quick { 700 } else { 3000 }));
     }
     // (d) back-off over 48 h
     jobs.push(Job::Backoff(if quick { 48 * 3600 } else { 96 * 3600 }));
@@ -294,7 +332,8 @@ pub fn run(tier: &str, out_path: &str) -> Value {
         Job::Interval(a, b, c) => interval_case(*a, *b, c, 1000 + i as u64),
         Job::Hetero(ts, secs) => vec![hetero_case(ts, *secs, 2000 + i as u64)],
         Job::LateJoin(a, b, s) => vec![latejoin_case(*a, *b, *s, 3000 + i as u64)],
-        Job::Silence(t, ts) => vec![silence_case(*t, *ts, 4000 + i as u64)],
+        Job::Silence(t, pt, pka, ts) => vec![silence_case(*t, *pt, *pka, *ts, 4000 + i as u64)],
+        Job::HeteroKa(ts, ka, secs) => vec![hetero_ka_case(ts, *ka, *secs, 6000 + i as u64)],
         Job::Backoff(s) => vec![backoff_case(*s, 5000)],
     });
     let mut t = Trace::create(out_path);
